@@ -270,6 +270,18 @@ Definition run_m (o : opts) (body : bytes) : bytes * bytes :=
   | _ => (str "skip", [])
   end.
 
+(** kind K: country codes of the addresses start, start+step, ... (count of them) *)
+Fixpoint run_k_go (n : nat) (a step : N) (acc : list bytes) : list bytes :=
+  match n with
+  | O => rev_append acc []
+  | S k => run_k_go k (a + step) step (str (icao_to_country a) :: acc)
+  end.
+Definition run_k (body : bytes) : bytes * bytes :=
+  match split 58 body with
+  | [s; c; st] => (str "ok", join [44] (run_k_go (N.to_nat (parse_dec c)) (parse_dec s) (parse_dec st) []))
+  | _ => (str "skip", [])
+  end.
+
 (** one case line in, one observation line out *)
 Definition run_case (line : bytes) : bytes :=
   match split 9 line with
@@ -280,6 +292,7 @@ Definition run_case (line : bytes) : bytes :=
         | [72] => run_h o body
         | [71] => run_g body
         | [77] => run_m o body
+        | [75] => run_k body
         | _ => (str "skip", [])
         end in
       id ++ [9] ++ oc ++ [9] ++ obs
